@@ -12,7 +12,7 @@ for m in sorted(glob.glob(os.path.join(V, 'seeded', f'*-{tag}-*', 'meta.json')))
     own = f"**{d['breaks_property']}** {sig}" if d.get('caught_by_own_check') else 'not by its own check'
     first = 'caught' if 'missed_at_first' not in d else '**missed** -> ' + d['missed_at_first']
     others = ', '.join(d.get('also_caught_by', []))
-    print(f"| {d['id']} | {d['change'][:170]} | {d['needs_to_manifest'][:200]} | {own} | {others} | {first} |")
+    print(f"| {d['id']} | {d['change'][:120].replace('|', '\\|')} | {d['needs_to_manifest'][:140].replace('|', '\\|')} | {own} | {others} | {first} |")
     tally['n'] += 1
     tally['first'] += 'missed_at_first' not in d
     tally['own'] += bool(d.get('caught_by_own_check'))
